@@ -507,7 +507,7 @@ func runOverlayTest(repo, dir, rel, test string, timeoutSec int) (bool, string) 
 	out, err := cmd.CombinedOutput()
 	s := string(out)
 	if len(s) > 6000 {
-		s = s[:6000] + "..."
+		s = "..." + s[len(s)-6000:]
 	}
 	if err != nil {
 		return false, s
